@@ -1,4 +1,1017 @@
-use vf_explore::{Report, Value};
-use crate::classes::Classes;
-pub fn run(_rep: &mut Report) {}
-pub fn replay_case(_case: &Value, _verbose: bool) -> Classes { Classes::new() }
+//! C09 — algebra law checkers are exact (`lattices::algebra`), shipped semirings satisfy their laws.
+//!
+//! Product enumeration: every operation table over carriers {0}, {0,1}, {0,1,2}, every candidate
+//! identity / zero / one element, every unary (inverse) table; each checker's verdict is compared
+//! with an independent brute-force evaluation of the law's definition (`o_*` functions below, written
+//! from the doc comments in algebra.rs, evaluated over all tuples without consulting the checker).
+use lattices::algebra as alg;
+use vf_explore::{Report, Stats, Value, json, ncpu};
+
+use crate::classes::{Acc, Classes, par_acc};
+
+pub type Tab = [[u8; 3]; 3];
+pub type Un = [u8; 3];
+
+#[derive(Clone, Copy, Debug, PartialEq, Eq, Hash)]
+#[repr(usize)]
+pub enum Ck {
+    Associativity,
+    Commutativity,
+    Idempotency,
+    Semigroup,
+    Identity,
+    Monoid,
+    CommutativeMonoid,
+    AbsorbingElement,
+    NoNonzeroZeroDivisors,
+    Inverse,
+    Group,
+    AbelianGroup,
+    NonzeroInverse,
+    SingleProps,
+    LeftDistributes,
+    RightDistributes,
+    Distributive,
+    Semiring,
+    Ring,
+    CommutativeRing,
+    IntegralDomain,
+    Field,
+    Linearity,
+    Bilinearity,
+}
+pub const NCK: usize = 24;
+pub const CK_NAMES: [&str; NCK] = [
+    "associativity",
+    "commutativity",
+    "idempotency",
+    "semigroup",
+    "identity",
+    "monoid",
+    "commutative_monoid",
+    "absorbing_element",
+    "no_nonzero_zero_divisors",
+    "inverse",
+    "group",
+    "abelian_group",
+    "nonzero_inverse",
+    "get_single_function_properties",
+    "left_distributes",
+    "right_distributes",
+    "distributive",
+    "semiring",
+    "ring",
+    "commutative_ring",
+    "integral_domain",
+    "field",
+    "linearity",
+    "bilinearity",
+];
+const ALL_CK: [Ck; NCK] = [
+    Ck::Associativity,
+    Ck::Commutativity,
+    Ck::Idempotency,
+    Ck::Semigroup,
+    Ck::Identity,
+    Ck::Monoid,
+    Ck::CommutativeMonoid,
+    Ck::AbsorbingElement,
+    Ck::NoNonzeroZeroDivisors,
+    Ck::Inverse,
+    Ck::Group,
+    Ck::AbelianGroup,
+    Ck::NonzeroInverse,
+    Ck::SingleProps,
+    Ck::LeftDistributes,
+    Ck::RightDistributes,
+    Ck::Distributive,
+    Ck::Semiring,
+    Ck::Ring,
+    Ck::CommutativeRing,
+    Ck::IntegralDomain,
+    Ck::Field,
+    Ck::Linearity,
+    Ck::Bilinearity,
+];
+fn ck_by_name(s: &str) -> Ck {
+    ALL_CK[CK_NAMES.iter().position(|n| *n == s).unwrap_or_else(|| panic!("unknown checker {s}"))]
+}
+
+/// One case for the fixed-carrier checkers. Meaning of the parameters per checker:
+/// identity/monoid/commutative_monoid: e = `zero`; absorbing_element: z = `zero`;
+/// no_nonzero_zero_divisors: zero = `zero`; inverse/group/abelian_group: e = `zero`, b = `b`;
+/// nonzero_inverse: e = `one`, zero = `zero`, b = `b`;
+/// get_single_function_properties: e = `zero`, b = `b`, z = `one`;
+/// two-operation checkers: (f, g, zero, one, inverse_f = `b`, inverse_g = `b2`).
+#[derive(Clone, Copy, Debug)]
+pub struct Case {
+    pub ck: Ck,
+    pub n: usize,
+    pub f: Tab,
+    pub g: Tab,
+    pub zero: u8,
+    pub one: u8,
+    pub b: Un,
+    pub b2: Un,
+}
+
+// ---- the real checkers -----------------------------------------------------------------------------
+
+fn r(x: Result<(), &'static str>) -> u32 {
+    x.is_ok() as u32
+}
+
+pub fn run_checker_n<const N: usize>(c: &Case) -> u32 {
+    let items: [u8; N] = core::array::from_fn(|i| i as u8);
+    let (ft, gt, bt, b2t) = (c.f, c.g, c.b, c.b2);
+    let f = move |a: u8, b: u8| ft[a as usize][b as usize];
+    let g = move |a: u8, b: u8| gt[a as usize][b as usize];
+    let b = move |a: u8| bt[a as usize];
+    let b2 = move |a: u8| b2t[a as usize];
+    let (zero, one) = (c.zero, c.one);
+    match c.ck {
+        Ck::Associativity => r(alg::associativity(&items, &f)),
+        Ck::Commutativity => r(alg::commutativity(&items, &f)),
+        Ck::Idempotency => r(alg::idempotency(&items, &f)),
+        Ck::Semigroup => r(alg::semigroup(&items, &f)),
+        Ck::Identity => r(alg::identity(&items, &f, zero)),
+        Ck::Monoid => r(alg::monoid(&items, &f, zero)),
+        Ck::CommutativeMonoid => r(alg::commutative_monoid(&items, &f, zero)),
+        Ck::AbsorbingElement => r(alg::absorbing_element(&items, &f, zero)),
+        Ck::NoNonzeroZeroDivisors => r(alg::no_nonzero_zero_divisors(&items, &f, zero)),
+        Ck::Inverse => r(alg::inverse(&items, &f, zero, &b)),
+        Ck::Group => r(alg::group(&items, &f, zero, &b)),
+        Ck::AbelianGroup => r(alg::abelian_group(&items, &f, zero, &b)),
+        Ck::NonzeroInverse => r(alg::nonzero_inverse(&items, &f, one, zero, &b)),
+        Ck::SingleProps => {
+            let props = alg::get_single_function_properties(&items, &f, zero, &b, one);
+            let names = ["associativity", "commutativity", "idempotency", "identity", "inverse", "absorbing_element"];
+            let mut mask = 0u32;
+            let mut last = None;
+            for p in props {
+                let i = names.iter().position(|n| *n == p).map(|i| i as u32).unwrap_or(31);
+                // the documented output lists properties in the fixed order above, each once
+                if let Some(l) = last {
+                    if i <= l {
+                        mask |= 1 << 30;
+                    }
+                }
+                last = Some(i);
+                mask |= 1 << i;
+            }
+            mask
+        }
+        Ck::LeftDistributes => r(alg::left_distributes(&items, &f, &g)),
+        Ck::RightDistributes => r(alg::right_distributes(&items, &f, &g)),
+        Ck::Distributive => r(alg::distributive(&items, &f, &g)),
+        Ck::Semiring => r(alg::semiring(&items, &f, &g, zero, one)),
+        Ck::Ring => r(alg::ring(&items, &f, &g, zero, one, &b)),
+        Ck::CommutativeRing => r(alg::commutative_ring(&items, &f, &g, zero, one, &b)),
+        Ck::IntegralDomain => r(alg::integral_domain(&items, &f, &g, zero, one, &b)),
+        Ck::Field => r(alg::field(&items, &f, &g, zero, one, &b, &b2)),
+        Ck::Linearity | Ck::Bilinearity => unreachable!(),
+    }
+}
+pub fn run_checker(c: &Case) -> u32 {
+    match c.n {
+        1 => run_checker_n::<1>(c),
+        2 => run_checker_n::<2>(c),
+        3 => run_checker_n::<3>(c),
+        n => panic!("carrier size {n}"),
+    }
+}
+
+// ---- the independent oracle ------------------------------------------------------------------------
+// Plain index arithmetic on the tables; each function evaluates the documented definition over all
+// tuples of the carrier {0..n-1}.
+
+fn o_assoc(t: &Tab, n: usize) -> bool {
+    let mut ok = true;
+    for a in 0..n {
+        for b in 0..n {
+            for c in 0..n {
+                ok &= t[t[a][b] as usize][c] == t[a][t[b][c] as usize];
+            }
+        }
+    }
+    ok
+}
+fn o_comm(t: &Tab, n: usize) -> bool {
+    let mut ok = true;
+    for a in 0..n {
+        for b in 0..n {
+            ok &= t[a][b] == t[b][a];
+        }
+    }
+    ok
+}
+fn o_idem(t: &Tab, n: usize) -> bool {
+    (0..n).filter(|&a| t[a][a] as usize != a).count() == 0
+}
+fn o_ident(t: &Tab, n: usize, e: u8) -> bool {
+    let e = e as usize;
+    (0..n).filter(|&a| t[a][e] as usize != a || t[e][a] as usize != a).count() == 0
+}
+fn o_absorb(t: &Tab, n: usize, z: u8) -> bool {
+    let zi = z as usize;
+    (0..n).filter(|&a| t[a][zi] != z || t[zi][a] != z).count() == 0
+}
+fn o_inverse(t: &Tab, n: usize, e: u8, b: &Un) -> bool {
+    (0..n).filter(|&a| t[a][b[a] as usize] != e || t[b[a] as usize][a] != e).count() == 0
+}
+fn o_nonzero_inverse(t: &Tab, n: usize, e: u8, zero: u8, b: &Un) -> bool {
+    (0..n).filter(|&a| a as u8 != zero && (t[a][b[a] as usize] != e || t[b[a] as usize][a] != e)).count() == 0
+}
+fn o_nzd(t: &Tab, n: usize, zero: u8) -> bool {
+    let mut bad = 0;
+    for a in 0..n {
+        for b in 0..n {
+            if a as u8 != zero && b as u8 != zero && t[a][b] == zero {
+                bad += 1;
+            }
+        }
+    }
+    bad == 0
+}
+fn o_monoid(t: &Tab, n: usize, e: u8) -> bool {
+    o_assoc(t, n) && o_ident(t, n, e)
+}
+fn o_cmonoid(t: &Tab, n: usize, e: u8) -> bool {
+    o_monoid(t, n, e) && o_comm(t, n)
+}
+fn o_group(t: &Tab, n: usize, e: u8, b: &Un) -> bool {
+    o_monoid(t, n, e) && o_inverse(t, n, e, b)
+}
+/// a(b+c) = ab + ac   (f is +, g is juxtaposition)
+fn o_ldist(f: &Tab, g: &Tab, n: usize) -> bool {
+    let mut ok = true;
+    for a in 0..n {
+        for b in 0..n {
+            for c in 0..n {
+                ok &= g[a][f[b][c] as usize] == f[g[a][b] as usize][g[a][c] as usize];
+            }
+        }
+    }
+    ok
+}
+/// (b+c)a = ba + ca
+fn o_rdist(f: &Tab, g: &Tab, n: usize) -> bool {
+    let mut ok = true;
+    for a in 0..n {
+        for b in 0..n {
+            for c in 0..n {
+                ok &= g[f[b][c] as usize][a] == f[g[b][a] as usize][g[c][a] as usize];
+            }
+        }
+    }
+    ok
+}
+/// "two associative operations f, g with identities zero, one; f commutative; g distributes over f;
+/// the zero of f absorbing for g"
+fn o_semiring(c: &Case) -> bool {
+    o_cmonoid(&c.f, c.n, c.zero)
+        && o_monoid(&c.g, c.n, c.one)
+        && o_absorb(&c.g, c.n, c.zero)
+        && o_ldist(&c.f, &c.g, c.n)
+        && o_rdist(&c.f, &c.g, c.n)
+}
+fn o_ring(c: &Case) -> bool {
+    o_semiring(c) && o_inverse(&c.f, c.n, c.zero, &c.b)
+}
+fn o_cring(c: &Case) -> bool {
+    o_ring(c) && o_comm(&c.g, c.n)
+}
+
+pub fn oracle(c: &Case) -> u32 {
+    let n = c.n;
+    let t = &c.f;
+    let v = match c.ck {
+        Ck::Associativity | Ck::Semigroup => o_assoc(t, n),
+        Ck::Commutativity => o_comm(t, n),
+        Ck::Idempotency => o_idem(t, n),
+        Ck::Identity => o_ident(t, n, c.zero),
+        Ck::Monoid => o_monoid(t, n, c.zero),
+        Ck::CommutativeMonoid => o_cmonoid(t, n, c.zero),
+        Ck::AbsorbingElement => o_absorb(t, n, c.zero),
+        Ck::NoNonzeroZeroDivisors => o_nzd(t, n, c.zero),
+        Ck::Inverse => o_inverse(t, n, c.zero, &c.b),
+        Ck::Group => o_group(t, n, c.zero, &c.b),
+        Ck::AbelianGroup => o_group(t, n, c.zero, &c.b) && o_comm(t, n),
+        Ck::NonzeroInverse => o_nonzero_inverse(t, n, c.one, c.zero, &c.b),
+        Ck::SingleProps => {
+            let bits = [
+                o_assoc(t, n),
+                o_comm(t, n),
+                o_idem(t, n),
+                o_ident(t, n, c.zero),
+                o_inverse(t, n, c.zero, &c.b),
+                o_absorb(t, n, c.one),
+            ];
+            return bits.iter().enumerate().map(|(i, b)| (*b as u32) << i).sum();
+        }
+        Ck::LeftDistributes => o_ldist(&c.f, &c.g, n),
+        Ck::RightDistributes => o_rdist(&c.f, &c.g, n),
+        Ck::Distributive => o_ldist(&c.f, &c.g, n) && o_rdist(&c.f, &c.g, n),
+        Ck::Semiring => o_semiring(c),
+        Ck::Ring => o_ring(c),
+        Ck::CommutativeRing => o_cring(c),
+        // "a NONZERO commutative ring with no nonzero zero divisors": nonzero ring = zero != one
+        Ck::IntegralDomain => o_cring(c) && c.zero != c.one && o_nzd(&c.g, n, c.zero),
+        // "a commutative ring where every element [except zero, see nonzero_inverse] has a
+        // multiplicative inverse"
+        Ck::Field => o_cring(c) && o_nonzero_inverse(&c.g, n, c.one, c.zero, &c.b2),
+        Ck::Linearity | Ck::Bilinearity => unreachable!(),
+    };
+    v as u32
+}
+
+// ---- bookkeeping -----------------------------------------------------------------------------------
+
+/// per-checker verdict counts: [checker][0 = rejected, 1 = accepted]
+#[derive(Clone)]
+pub struct Tally {
+    pub n: [[u64; 2]; NCK],
+    pub track_all: bool,
+}
+impl Tally {
+    pub fn new(track_all: bool) -> Self {
+        Tally { n: [[0; 2]; NCK], track_all }
+    }
+    pub fn fold(&self, acc: &mut Acc, section: &str) {
+        for (i, name) in CK_NAMES.iter().enumerate() {
+            for v in 0..2 {
+                if self.n[i][v] > 0 {
+                    acc.count_n(&format!("{name}:{}", if v == 1 { "accepted" } else { "rejected" }), self.n[i][v]);
+                    acc.count_n(&format!("{section}/{name}:{}", if v == 1 { "accepted" } else { "rejected" }), self.n[i][v]);
+                }
+            }
+        }
+    }
+}
+
+fn tab_flat(t: &Tab, n: usize) -> Vec<u8> {
+    let mut o = vec![];
+    for a in 0..n {
+        for b in 0..n {
+            o.push(t[a][b]);
+        }
+    }
+    o
+}
+fn digits(v: &[u8]) -> String {
+    v.iter().map(|d| char::from(b'0' + d)).collect()
+}
+fn uses_g(ck: Ck) -> bool {
+    (ck as usize) >= (Ck::LeftDistributes as usize)
+}
+
+pub fn case_json(c: &Case) -> Value {
+    json!({"checker": CK_NAMES[c.ck as usize], "n": c.n, "f": tab_flat(&c.f, c.n), "g": tab_flat(&c.g, c.n),
+           "zero": c.zero, "one": c.one, "b": c.b[..c.n].to_vec(), "b2": c.b2[..c.n].to_vec()})
+}
+fn case_witness(c: &Case) -> String {
+    let mut s = format!("n={},f={}", c.n, digits(&tab_flat(&c.f, c.n)));
+    if uses_g(c.ck) {
+        s += &format!(",g={}", digits(&tab_flat(&c.g, c.n)));
+    }
+    s += &format!(",zero={},one={},b={},b2={}", c.zero, c.one, digits(&c.b[..c.n]), digits(&c.b2[..c.n]));
+    s
+}
+fn tab_of(v: &Value, n: usize) -> Tab {
+    let mut t = [[0u8; 3]; 3];
+    if let Some(a) = v.as_array() {
+        for (i, x) in a.iter().enumerate() {
+            t[i / n][i % n] = x.as_u64().unwrap() as u8;
+        }
+    }
+    t
+}
+fn un_of(v: &Value) -> Un {
+    let mut t = [0u8; 3];
+    if let Some(a) = v.as_array() {
+        for (i, x) in a.iter().enumerate() {
+            t[i] = x.as_u64().unwrap() as u8;
+        }
+    }
+    t
+}
+
+/// Execute the checker and the oracle for one case and compare.
+#[inline]
+pub fn judge(c: &Case, order: (u64, u64), acc: &mut Acc, tally: &mut Tally) {
+    let got = run_checker(c);
+    let want = oracle(c);
+    acc.st.evaluations += 1;
+    if c.ck != Ck::SingleProps {
+        tally.n[c.ck as usize][got as usize & 1] += 1;
+    } else {
+        tally.n[c.ck as usize][(got != 0) as usize] += 1;
+    }
+    if tally.track_all || want != 0 {
+        // non-trivial rule: small families record every case; the huge families record the cases in
+        // which the law holds (the checker must go through every tuple to accept)
+        acc.st.nontrivial(&(c.ck as usize, c.n, c.f, if uses_g(c.ck) { c.g } else { [[0; 3]; 3] }, c.zero, c.one, c.b, c.b2));
+    }
+    if got != want {
+        let kind = if c.ck == Ck::SingleProps {
+            "wrong-list"
+        } else if got == 1 {
+            "accepts-when-law-fails"
+        } else {
+            "rejects-when-law-holds"
+        };
+        let class = format!("algebra::{}/{kind}", CK_NAMES[c.ck as usize]);
+        acc.cl.hit(&class, order, || {
+            (
+                case_witness(c),
+                format!("{} returned {got} but brute-force evaluation of its law gives {want} on {}", CK_NAMES[c.ck as usize], case_witness(c)),
+                case_json(c),
+            )
+        });
+    }
+}
+
+fn pow(n: usize, e: usize) -> usize {
+    n.pow(e as u32)
+}
+pub fn tab_from(idx: usize, n: usize) -> Tab {
+    let mut t = [[0u8; 3]; 3];
+    let mut x = idx;
+    for a in 0..n {
+        for b in 0..n {
+            t[a][b] = (x % n) as u8;
+            x /= n;
+        }
+    }
+    t
+}
+pub fn un_from(idx: usize, n: usize) -> Un {
+    let mut t = [0u8; 3];
+    let mut x = idx;
+    for a in 0..n {
+        t[a] = (x % n) as u8;
+        x /= n;
+    }
+    t
+}
+
+fn outcome_marks(st: &mut Stats, tally: &Tally) {
+    for i in 0..NCK {
+        for v in 0..2 {
+            if tally.n[i][v] > 0 {
+                st.outcome(&(i, v));
+            }
+        }
+    }
+}
+
+/// All single-operation checkers on every table of carrier size n.
+fn single_section(sec: u64, n: usize, threads: usize) -> Acc {
+    let nt = pow(n, n * n);
+    let nu = pow(n, n);
+    let name = format!("single/n={n}");
+    par_acc(nt, threads, |fi| {
+        let mut acc = Acc::new();
+        let mut tally = Tally::new(true);
+        let f = tab_from(fi, n);
+        let zt = [[0u8; 3]; 3];
+        let base = Case { ck: Ck::Associativity, n, f, g: zt, zero: 0, one: 0, b: [0; 3], b2: [0; 3] };
+        let mut idx = (fi as u64) << 20;
+        let mut go = |c: Case, acc: &mut Acc, tally: &mut Tally| {
+            idx += 1;
+            judge(&c, (sec, idx), acc, tally);
+        };
+        for ck in [Ck::Associativity, Ck::Commutativity, Ck::Idempotency, Ck::Semigroup] {
+            go(Case { ck, ..base }, &mut acc, &mut tally);
+        }
+        for e in 0..n as u8 {
+            for ck in [Ck::Identity, Ck::Monoid, Ck::CommutativeMonoid, Ck::AbsorbingElement, Ck::NoNonzeroZeroDivisors] {
+                go(Case { ck, zero: e, ..base }, &mut acc, &mut tally);
+            }
+            for bi in 0..nu {
+                let b = un_from(bi, n);
+                for ck in [Ck::Inverse, Ck::Group, Ck::AbelianGroup] {
+                    go(Case { ck, zero: e, b, ..base }, &mut acc, &mut tally);
+                }
+                for z in 0..n as u8 {
+                    go(Case { ck: Ck::NonzeroInverse, zero: e, one: z, b, ..base }, &mut acc, &mut tally);
+                    go(Case { ck: Ck::SingleProps, zero: e, one: z, b, ..base }, &mut acc, &mut tally);
+                }
+            }
+        }
+        outcome_marks(&mut acc.st, &tally);
+        tally.fold(&mut acc, &name);
+        acc
+    })
+}
+
+#[derive(Clone, Copy, PartialEq)]
+enum PairMode {
+    /// every checker, every parameter
+    Full,
+    /// only the parameter-free distributivity checkers and semiring(zero, one)
+    DistSemiring,
+    /// every checker; `field` only when g is a commutative table
+    FieldOnCommutativeG,
+}
+
+/// Two-operation checkers on f-tables `fs` x all g-tables of carrier size n.
+fn pair_section(sec: u64, name: &str, n: usize, fs: &[usize], mode: PairMode, track_all: bool, threads: usize) -> Acc {
+    let nt = pow(n, n * n);
+    let nu = pow(n, n);
+    // shard = (f, block of g) so that 16 threads stay busy even for few f
+    let blocks = if nt >= 64 { 64 } else { 1 };
+    let per = nt.div_ceil(blocks);
+    par_acc(fs.len() * blocks, threads, |shard| {
+        let mut acc = Acc::new();
+        let mut tally = Tally::new(track_all);
+        let fi = fs[shard / blocks];
+        let blk = shard % blocks;
+        let f = tab_from(fi, n);
+        for gi in (blk * per)..((blk + 1) * per).min(nt) {
+            let g = tab_from(gi, n);
+            let base = Case { ck: Ck::Distributive, n, f, g, zero: 0, one: 0, b: [0; 3], b2: [0; 3] };
+            let mut idx = ((fi * nt + gi) as u64) << 16;
+            let mut go = |c: Case, acc: &mut Acc, tally: &mut Tally| {
+                idx += 1;
+                judge(&c, (sec, idx), acc, tally);
+            };
+            for ck in [Ck::LeftDistributes, Ck::RightDistributes, Ck::Distributive] {
+                go(Case { ck, ..base }, &mut acc, &mut tally);
+            }
+            let g_comm = o_comm(&g, n);
+            for zero in 0..n as u8 {
+                for one in 0..n as u8 {
+                    go(Case { ck: Ck::Semiring, zero, one, ..base }, &mut acc, &mut tally);
+                    if mode == PairMode::DistSemiring {
+                        continue;
+                    }
+                    for bi in 0..nu {
+                        let b = un_from(bi, n);
+                        for ck in [Ck::Ring, Ck::CommutativeRing, Ck::IntegralDomain] {
+                            go(Case { ck, zero, one, b, ..base }, &mut acc, &mut tally);
+                        }
+                        if mode == PairMode::FieldOnCommutativeG && !g_comm {
+                            continue;
+                        }
+                        for b2i in 0..nu {
+                            let b2 = un_from(b2i, n);
+                            go(Case { ck: Ck::Field, zero, one, b, b2, ..base }, &mut acc, &mut tally);
+                        }
+                    }
+                }
+            }
+        }
+        outcome_marks(&mut acc.st, &tally);
+        tally.fold(&mut acc, name);
+        acc
+    })
+}
+
+// ---- linearity / bilinearity -----------------------------------------------------------------------
+
+pub type Tab6 = [[u8; 6]; 6];
+
+#[derive(Clone, Copy)]
+pub struct LinCase {
+    pub ns: usize,
+    pub nr: usize,
+    pub f: Tab6,
+    pub g: Tab6,
+    pub q: [u8; 6],
+}
+#[derive(Clone, Copy)]
+pub struct BilCase {
+    pub ns: usize,
+    pub nt: usize,
+    pub nr: usize,
+    pub f: Tab,
+    pub h: Tab,
+    pub g: Tab,
+    pub q: Tab,
+}
+
+const ITEMS6: [u8; 6] = [0, 1, 2, 3, 4, 5];
+
+fn run_linearity(c: &LinCase) -> bool {
+    let (f, g, q) = (c.f, c.g, c.q);
+    alg::linearity(
+        &ITEMS6[..c.ns],
+        move |a: u8, b: u8| f[a as usize][b as usize],
+        move |a: u8, b: u8| g[a as usize][b as usize],
+        move |a: u8| q[a as usize],
+    )
+    .is_ok()
+}
+/// q(a+b) = q(a) + q(b) for all a, b (q is a homomorphism from (S,f) to (R,g))
+fn o_linearity(c: &LinCase) -> bool {
+    let mut ok = true;
+    for a in 0..c.ns {
+        for b in 0..c.ns {
+            ok &= c.q[c.f[a][b] as usize] == c.g[c.q[a] as usize][c.q[b] as usize];
+        }
+    }
+    ok
+}
+fn run_bilinearity(c: &BilCase) -> bool {
+    let (f, h, g, q) = (c.f, c.h, c.g, c.q);
+    alg::bilinearity(
+        &ITEMS6[..c.ns],
+        &ITEMS6[..c.nt],
+        move |a: u8, b: u8| f[a as usize][b as usize],
+        move |a: u8, b: u8| h[a as usize][b as usize],
+        move |a: u8, b: u8| g[a as usize][b as usize],
+        move |a: u8, b: u8| q[a as usize][b as usize],
+    )
+    .is_ok()
+}
+/// q(a+b, c) = q(a,c) + q(b,c)  and  q(a, c+d) = q(a,c) + q(a,d)
+fn o_bilinearity(c: &BilCase) -> bool {
+    let mut ok = true;
+    for a in 0..c.ns {
+        for b in 0..c.ns {
+            for x in 0..c.nt {
+                ok &= c.q[c.f[a][b] as usize][x] == c.g[c.q[a][x] as usize][c.q[b][x] as usize];
+            }
+        }
+    }
+    for a in 0..c.ns {
+        for x in 0..c.nt {
+            for y in 0..c.nt {
+                ok &= c.q[a][c.h[x][y] as usize] == c.g[c.q[a][x] as usize][c.q[a][y] as usize];
+            }
+        }
+    }
+    ok
+}
+
+fn tab6_flat(t: &Tab6, n: usize) -> Vec<u8> {
+    let mut o = vec![];
+    for a in 0..n {
+        for b in 0..n {
+            o.push(t[a][b]);
+        }
+    }
+    o
+}
+fn tab6_of(v: &Value, n: usize) -> Tab6 {
+    let mut t = [[0u8; 6]; 6];
+    for (i, x) in v.as_array().unwrap().iter().enumerate() {
+        t[i / n][i % n] = x.as_u64().unwrap() as u8;
+    }
+    t
+}
+fn tab_to6(t: &Tab) -> Tab6 {
+    let mut o = [[0u8; 6]; 6];
+    for a in 0..3 {
+        for b in 0..3 {
+            o[a][b] = t[a][b];
+        }
+    }
+    o
+}
+fn lin_witness(c: &LinCase) -> String {
+    format!("S={},R={},f={},g={},q={}", c.ns, c.nr, digits(&tab6_flat(&c.f, c.ns)), digits(&tab6_flat(&c.g, c.nr)), digits(&c.q[..c.ns]))
+}
+fn lin_json(c: &LinCase) -> Value {
+    json!({"checker": "linearity", "ns": c.ns, "nr": c.nr, "f": tab6_flat(&c.f, c.ns), "g": tab6_flat(&c.g, c.nr), "q": c.q[..c.ns].to_vec()})
+}
+fn judge_lin(c: &LinCase, order: (u64, u64), track: bool, acc: &mut Acc, tally: &mut Tally) {
+    let got = run_linearity(c);
+    let want = o_linearity(c);
+    acc.st.evaluations += 1;
+    tally.n[Ck::Linearity as usize][got as usize] += 1;
+    if track || want {
+        acc.st.nontrivial(&("lin", c.ns, c.nr, c.f, c.g, c.q));
+    }
+    if got != want {
+        let kind = if got { "accepts-when-law-fails" } else { "rejects-when-law-holds" };
+        acc.cl.hit(&format!("algebra::linearity/{kind}"), order, || {
+            (
+                lin_witness(c),
+                format!("linearity returned {} but q(f(a,b)) == g(q(a),q(b)) for all a,b is {want} on {}", if got { "Ok" } else { "Err" }, lin_witness(c)),
+                lin_json(c),
+            )
+        });
+    }
+}
+fn bil_witness(c: &BilCase) -> String {
+    let mut q = vec![];
+    for a in 0..c.ns {
+        for b in 0..c.nt {
+            q.push(c.q[a][b]);
+        }
+    }
+    format!("S={},T={},R={},f={},h={},g={},q={}", c.ns, c.nt, c.nr, digits(&tab_flat(&c.f, c.ns)), digits(&tab_flat(&c.h, c.nt)), digits(&tab_flat(&c.g, c.nr)), digits(&q))
+}
+fn bil_json(c: &BilCase) -> Value {
+    let mut q = vec![];
+    for a in 0..c.ns {
+        for b in 0..c.nt {
+            q.push(c.q[a][b]);
+        }
+    }
+    json!({"checker": "bilinearity", "ns": c.ns, "nt": c.nt, "nr": c.nr, "f": tab_flat(&c.f, c.ns), "h": tab_flat(&c.h, c.nt), "g": tab_flat(&c.g, c.nr), "q": q})
+}
+fn judge_bil(c: &BilCase, order: (u64, u64), track: bool, acc: &mut Acc, tally: &mut Tally) {
+    let got = run_bilinearity(c);
+    let want = o_bilinearity(c);
+    acc.st.evaluations += 1;
+    tally.n[Ck::Bilinearity as usize][got as usize] += 1;
+    if track || want {
+        acc.st.nontrivial(&("bil", c.ns, c.nt, c.nr, c.f, c.h, c.g, c.q));
+    }
+    if got != want {
+        let kind = if got { "accepts-when-law-fails" } else { "rejects-when-law-holds" };
+        acc.cl.hit(&format!("algebra::bilinearity/{kind}"), order, || {
+            (bil_witness(c), format!("bilinearity returned {} but the law is {want} on {}", if got { "Ok" } else { "Err" }, bil_witness(c)), bil_json(c))
+        });
+    }
+}
+
+/// linearity over f in `fs` (tables on S), g in `gs` (tables on R), all maps q: S -> R.
+fn lin_section(sec: u64, name: &str, ns: usize, nr: usize, fs: &[usize], gs: &[usize], track: bool, threads: usize) -> Acc {
+    let nq = pow(nr, ns);
+    par_acc(fs.len(), threads, |k| {
+        let mut acc = Acc::new();
+        let mut tally = Tally::new(track);
+        let f = tab_to6(&tab_from(fs[k], ns));
+        for (gk, gi) in gs.iter().enumerate() {
+            let g = tab_to6(&tab_from(*gi, nr));
+            for qi in 0..nq {
+                let mut q = [0u8; 6];
+                let mut x = qi;
+                for a in 0..ns {
+                    q[a] = (x % nr) as u8;
+                    x /= nr;
+                }
+                let c = LinCase { ns, nr, f, g, q };
+                judge_lin(&c, (sec, ((k * gs.len() + gk) * nq + qi) as u64), track, &mut acc, &mut tally);
+            }
+        }
+        outcome_marks(&mut acc.st, &tally);
+        tally.fold(&mut acc, name);
+        acc
+    })
+}
+
+/// bilinearity over f in `fs` (on S), h in `hs` (on T), g in `gs` (on R), all maps q: S x T -> R.
+fn bil_section(sec: u64, name: &str, ns: usize, nt: usize, nr: usize, fs: &[usize], hs: &[usize], gs: &[usize], track: bool, threads: usize) -> Acc {
+    let nq = pow(nr, ns * nt);
+    par_acc(fs.len() * hs.len(), threads, |k| {
+        let mut acc = Acc::new();
+        let mut tally = Tally::new(track);
+        let f = tab_from(fs[k / hs.len()], ns);
+        let h = tab_from(hs[k % hs.len()], nt);
+        for (gk, gi) in gs.iter().enumerate() {
+            let g = tab_from(*gi, nr);
+            for qi in 0..nq {
+                let mut q = [[0u8; 3]; 3];
+                let mut x = qi;
+                for a in 0..ns {
+                    for b in 0..nt {
+                        q[a][b] = (x % nr) as u8;
+                        x /= nr;
+                    }
+                }
+                let c = BilCase { ns, nt, nr, f, h, g, q };
+                judge_bil(&c, (sec, ((k * gs.len() + gk) * nq + qi) as u64), track, &mut acc, &mut tally);
+            }
+        }
+        outcome_marks(&mut acc.st, &tally);
+        tally.fold(&mut acc, name);
+        acc
+    })
+}
+
+/// Multiplication table of the symmetric group S3 (elements = permutations of {0,1,2} in
+/// lexicographic order; product = composition "apply right factor first").
+pub fn s3_table() -> Tab6 {
+    let perms: [[u8; 3]; 6] = [[0, 1, 2], [0, 2, 1], [1, 0, 2], [1, 2, 0], [2, 0, 1], [2, 1, 0]];
+    let mut t = [[0u8; 6]; 6];
+    for a in 0..6 {
+        for b in 0..6 {
+            let c: [u8; 3] = core::array::from_fn(|i| perms[a][perms[b][i] as usize]);
+            t[a][b] = perms.iter().position(|p| *p == c).unwrap() as u8;
+        }
+    }
+    t
+}
+
+/// linearity with f = g = the group S3, all 6^6 maps q: S3 -> S3 (the smallest carrier on which
+/// "group operation" does not imply "commutative").
+fn lin_s3_section(sec: u64, threads: usize) -> Acc {
+    let t = s3_table();
+    par_acc(36, threads, |k| {
+        let mut acc = Acc::new();
+        let mut tally = Tally::new(true);
+        for rest in 0..1296usize {
+            let qi = k * 1296 + rest;
+            let mut q = [0u8; 6];
+            let mut x = qi;
+            for a in 0..6 {
+                q[a] = (x % 6) as u8;
+                x /= 6;
+            }
+            let c = LinCase { ns: 6, nr: 6, f: t, g: t, q };
+            judge_lin(&c, (sec, qi as u64), true, &mut acc, &mut tally);
+        }
+        outcome_marks(&mut acc.st, &tally);
+        tally.fold(&mut acc, "linearity/S3");
+        acc
+    })
+}
+
+// ---- replay ------------------------------------------------------------------------------------------
+
+pub fn replay_case(case: &Value, verbose: bool) -> Classes {
+    if case.get("semiring").is_some() {
+        return crate::semiring::replay_case(case, verbose);
+    }
+    let mut acc = Acc::new();
+    let mut tally = Tally::new(true);
+    let name = case["checker"].as_str().expect("checker name");
+    match name {
+        "linearity" => {
+            let (ns, nr) = (case["ns"].as_u64().unwrap() as usize, case["nr"].as_u64().unwrap() as usize);
+            let mut q = [0u8; 6];
+            for (i, x) in case["q"].as_array().unwrap().iter().enumerate() {
+                q[i] = x.as_u64().unwrap() as u8;
+            }
+            let c = LinCase { ns, nr, f: tab6_of(&case["f"], ns), g: tab6_of(&case["g"], nr), q };
+            if verbose {
+                println!("  linearity: checker Ok = {}, law holds = {}  ({})", run_linearity(&c), o_linearity(&c), lin_witness(&c));
+            }
+            judge_lin(&c, (0, 0), true, &mut acc, &mut tally);
+        }
+        "bilinearity" => {
+            let (ns, nt, nr) = (case["ns"].as_u64().unwrap() as usize, case["nt"].as_u64().unwrap() as usize, case["nr"].as_u64().unwrap() as usize);
+            let mut q = [[0u8; 3]; 3];
+            for (i, x) in case["q"].as_array().unwrap().iter().enumerate() {
+                q[i / nt][i % nt] = x.as_u64().unwrap() as u8;
+            }
+            let c = BilCase { ns, nt, nr, f: tab_of(&case["f"], ns), h: tab_of(&case["h"], nt), g: tab_of(&case["g"], nr), q };
+            if verbose {
+                println!("  bilinearity: checker Ok = {}, law holds = {}  ({})", run_bilinearity(&c), o_bilinearity(&c), bil_witness(&c));
+            }
+            judge_bil(&c, (0, 0), true, &mut acc, &mut tally);
+        }
+        _ => {
+            let n = case["n"].as_u64().unwrap() as usize;
+            let c = Case {
+                ck: ck_by_name(name),
+                n,
+                f: tab_of(&case["f"], n),
+                g: tab_of(&case["g"], n),
+                zero: case["zero"].as_u64().unwrap() as u8,
+                one: case["one"].as_u64().unwrap() as u8,
+                b: un_of(&case["b"]),
+                b2: un_of(&case["b2"]),
+            };
+            if verbose {
+                println!("  {name}: checker -> {}, brute-force law -> {}  ({})", run_checker(&c), oracle(&c), case_witness(&c));
+            }
+            judge(&c, (0, 0), &mut acc, &mut tally);
+        }
+    }
+    acc.cl
+}
+
+// ---- driver ------------------------------------------------------------------------------------------
+
+pub fn run(rep: &mut Report) {
+    let thorough = rep.thorough();
+    let threads = ncpu().min(16);
+    rep.rule = "product enumeration of (checker, carrier, operation tables, identity/zero/one candidates, inverse tables); \
+                one case = one checker call compared with the brute-force law; families below ~5M cases record every case as \
+                non-trivial, the larger ones record the cases in which the law holds"
+        .into();
+    rep.explanation = "every law checker of lattices::algebra is run on real closures over lookup tables and compared with an independent \
+                       evaluation of the documented definition over all tuples (checker(...).is_ok() <=> law holds; for \
+                       get_single_function_properties the returned list must equal the list of laws that hold); the shipped semiring \
+                       applications are run on all triples of a boundary alphabet and compared with exact arithmetic in the claimed structure"
+        .into();
+    rep.assume("carriers are [0..n) as u8 with n in {1,2,3} (plus the 6-element group S3 for linearity); operations are total lookup tables");
+    rep.assume("integral_domain's law is taken from its doc comment: NONZERO commutative ring (zero != one) without nonzero zero divisors; field's from its doc comment + nonzero_inverse's");
+    rep.assume("semiring applications expose no accessor: values are read (and BinaryTrust(false) is built) through a same-size transmute of the single-field struct, self-tested at start-up");
+    rep.bound("carrier_sizes", json!([1, 2, 3]));
+
+    let mut all = Classes::new();
+    let mut counters = std::collections::BTreeMap::<String, u64>::new();
+    let mut sec = 0u64;
+    let mut fold = |rep: &mut Report, name: &str, acc: Acc, all: &mut Classes, counters: &mut std::collections::BTreeMap<String, u64>| {
+        all.merge(acc.cl.clone());
+        for (k, v) in &acc.counters {
+            *counters.entry(k.clone()).or_insert(0) += v;
+        }
+        rep.section(name, acc.st);
+    };
+
+    // single-operation checkers: all tables
+    for n in [1usize, 2, 3] {
+        sec += 1;
+        let acc = single_section(sec, n, threads);
+        fold(rep, &format!("single/n={n}"), acc, &mut all, &mut counters);
+    }
+    // index sets of special tables on 3 elements
+    let all3: Vec<usize> = (0..19683).collect();
+    let assoc3: Vec<usize> = all3.iter().cloned().filter(|i| o_assoc(&tab_from(*i, 3), 3)).collect();
+    let cm3: Vec<usize> = all3.iter().cloned().filter(|i| (0..3).any(|e| o_cmonoid(&tab_from(*i, 3), 3, e))).collect();
+    rep.bound("assoc_tables_n3", assoc3.len());
+    rep.bound("commutative_monoid_tables_n3", cm3.len());
+    let all2: Vec<usize> = (0..16).collect();
+    let all1: Vec<usize> = vec![0];
+
+    // two-operation checkers
+    sec += 1;
+    let acc = pair_section(sec, "pair/n=1", 1, &all1, PairMode::Full, true, threads);
+    fold(rep, "pair/n=1 (all f x all g, all params)", acc, &mut all, &mut counters);
+    sec += 1;
+    let acc = pair_section(sec, "pair/n=2", 2, &all2, PairMode::Full, true, threads);
+    fold(rep, "pair/n=2 (all 16x16, all params)", acc, &mut all, &mut counters);
+    sec += 1;
+    if thorough {
+        let acc = pair_section(sec, "pair/n=3/cm", 3, &cm3, PairMode::Full, false, threads);
+        fold(rep, "pair/n=3 (f in commutative-monoid tables x all g, all zero/one/inverse_f/inverse_g)", acc, &mut all, &mut counters);
+        sec += 1;
+        let rest: Vec<usize> = all3.iter().cloned().filter(|i| !cm3.contains(i)).collect();
+        let acc = pair_section(sec, "pair/n=3/all", 3, &rest, PairMode::DistSemiring, false, threads);
+        fold(rep, "pair/n=3 (remaining f x all g: distributivity checkers + semiring with all zero/one)", acc, &mut all, &mut counters);
+    } else {
+        let acc = pair_section(sec, "pair/n=3/cm", 3, &cm3, PairMode::FieldOnCommutativeG, false, threads);
+        fold(rep, "pair/n=3 (f in commutative-monoid tables x all g, all zero/one/inverse_f; field only for commutative g)", acc, &mut all, &mut counters);
+    }
+
+    // linearity
+    for (ns, nr) in [(1usize, 1usize), (2, 2), (2, 3), (3, 2)] {
+        sec += 1;
+        let fs: Vec<usize> = (0..pow(ns, ns * ns)).collect();
+        let gs: Vec<usize> = (0..pow(nr, nr * nr)).collect();
+        let name = format!("linearity/S={ns},R={nr}");
+        let acc = lin_section(sec, &name, ns, nr, &fs, &gs, ns * nr < 6, threads);
+        fold(rep, &format!("{name} (all f, g, q)"), acc, &mut all, &mut counters);
+    }
+    sec += 1;
+    if thorough {
+        let acc = lin_section(sec, "linearity/S=3,R=3", 3, 3, &assoc3, &all3, false, threads);
+        fold(rep, "linearity/S=3,R=3 (f associative x all g, all q)", acc, &mut all, &mut counters);
+        sec += 1;
+        let nonassoc: Vec<usize> = all3.iter().cloned().filter(|i| !assoc3.contains(i)).collect();
+        let acc = lin_section(sec, "linearity/S=3,R=3/b", 3, 3, &nonassoc, &assoc3, false, threads);
+        fold(rep, "linearity/S=3,R=3 (remaining f x g associative, all q)", acc, &mut all, &mut counters);
+    } else {
+        let acc = lin_section(sec, "linearity/S=3,R=3", 3, 3, &assoc3, &assoc3, true, threads);
+        fold(rep, "linearity/S=3,R=3 (f, g associative, all q)", acc, &mut all, &mut counters);
+    }
+    sec += 1;
+    let acc = lin_s3_section(sec, threads);
+    fold(rep, "linearity/S3 (f = g = symmetric group S3, all 46656 maps q)", acc, &mut all, &mut counters);
+
+    // bilinearity
+    sec += 1;
+    let acc = bil_section(sec, "bilinearity/2,2,2", 2, 2, 2, &all2, &all2, &all2, true, threads);
+    fold(rep, "bilinearity/S=T=R=2 (all f, h, g, q)", acc, &mut all, &mut counters);
+    sec += 1;
+    if thorough {
+        let acc = bil_section(sec, "bilinearity/2,2,3", 2, 2, 3, &all2, &all2, &all3, false, threads);
+        fold(rep, "bilinearity/S=T=2,R=3 (all f, h, g, q)", acc, &mut all, &mut counters);
+        sec += 1;
+        let acc = bil_section(sec, "bilinearity/3,2,2", 3, 2, 2, &all3, &all2, &all2, false, threads);
+        fold(rep, "bilinearity/S=3,T=R=2 (all f, h, g, q)", acc, &mut all, &mut counters);
+        sec += 1;
+        let acc = bil_section(sec, "bilinearity/2,3,2", 2, 3, 2, &all2, &all3, &all2, false, threads);
+        fold(rep, "bilinearity/S=2,T=3,R=2 (all f, h, g, q)", acc, &mut all, &mut counters);
+    } else {
+        let acc = bil_section(sec, "bilinearity/2,2,3", 2, 2, 3, &all2, &all2, &assoc3, false, threads);
+        fold(rep, "bilinearity/S=T=2,R=3 (all f, h; g associative; all q)", acc, &mut all, &mut counters);
+    }
+
+    // shipped semiring applications
+    sec += 1;
+    let acc = crate::semiring::run(sec);
+    fold(rep, "semiring_applications", acc, &mut all, &mut counters);
+
+    // vacuity guard per checker: both verdicts must occur
+    let mut verdicts = serde_json_map();
+    for name in CK_NAMES {
+        let a = counters.get(&format!("{name}:accepted")).cloned().unwrap_or(0);
+        let r = counters.get(&format!("{name}:rejected")).cloned().unwrap_or(0);
+        verdicts.insert(name.to_string(), json!({"accepted": a, "rejected": r}));
+        println!("[vf_coll] C09 {name:32} accepted={a:>12} rejected={r:>12}");
+        if a == 0 || r == 0 {
+            println!("MACHINERY-ERROR: property=C09 checker {name} produced only one verdict (accepted={a}, rejected={r})");
+            std::process::exit(2);
+        }
+    }
+    rep.sections.insert("verdict_counts".into(), Value::Object(verdicts));
+    let per_section: std::collections::BTreeMap<&String, &u64> = counters.iter().filter(|(k, _)| k.contains('/')).collect();
+    rep.sections.insert("verdict_counts_per_section".into(), json!(per_section));
+
+    let mut st = Stats::new();
+    all.emit(&mut st, &|case| replay_case(case, false));
+    rep.section("violation_classes", st);
+}
+
+fn serde_json_map() -> vf_explore::serde_json::Map<String, Value> {
+    vf_explore::serde_json::Map::new()
+}
